@@ -11,7 +11,7 @@
       - topK: *any* arrangement the sort / heap may produce among equal values ([legal_topk]).
     [Print Assumptions] shows the real-number axioms of the Coq standard library (used through Flocq in F32Facts.v). *)
 From Coq Require Import ZArith List Bool SpecFloat Reals.
-From V Require Import Sample.F32 Sample.Model Sample.F32Facts Sample.Proofs.
+From V Require Import Sample.F32 Sample.Model Sample.F32Facts Sample.Proofs Sample.ProofsMono Sample.Corr Sample.CorrProofs.
 Import ListNotations.
 Open Scope Z_scope.
 
@@ -78,6 +78,15 @@ Theorem C18_model_topk_legal : forall ts k, numl ts -> legal_topk ts k (topK ts 
 Proof. exact topK_legal. Qed.
 Print Assumptions C18_model_topk_legal.
 
+(** ... so is every topK output of the implementation that the correspondence check accepted ([chk_topk_legal] is
+    evaluated on the real topK's output for every case without NaN) ... *)
+Theorem C18_checked_topk_is_legal : forall logits k out,
+  Forall (fun b => is_nan (fb b) = false) logits ->
+  chk_topk_legal logits k out = true ->
+  legal_topk (enumerate 0 (map fb logits)) k (decs out).
+Proof. exact chk_topk_legal_sound. Qed.
+Print Assumptions C18_checked_topk_is_legal.
+
 (** ... and what "legal" means for the tokens left out: none of them is larger than a token that was kept *)
 Theorem C18_topk_set : forall ts k S, numl ts -> legal_topk ts k S ->
   (length S <= eff_k (length ts) k)%nat /\
@@ -116,17 +125,59 @@ Theorem C18_no_panic : forall E, exp_oracle_ok E ->
 Proof. intros E (H1 & H2 & H3 & H4). exact (Sample_no_panic E H1 H2 H3 H4). Qed.
 Print Assumptions C18_no_panic.
 
+(** ** the sets have their textbook meaning: with an exp that is monotone on the non-positive numbers, the
+    probabilities computed from any legal topK result are descending (the precondition "sorted in descending order of
+    probabilities" of topP and minP in the code) ... *)
+Definition exp_oracle_mono (E : sf -> sf) : Prop :=
+  forall x y, num x -> num y -> (rk x <= rk y)%R -> (rk y <= 0)%R -> (rk (E x) <= rk (E y))%R.
+
+Theorem C18_probabilities_descending : forall E, exp_oracle_ok E -> exp_oracle_mono E ->
+  forall temp k topp minp logits S,
+  params_ok temp topp minp -> Forall num logits ->
+  (exists x, In x logits /\ x <> ninf) ->
+  let pr := new_sampler temp k topp minp in
+  feq (p_temp pr) fzero = false ->
+  legal_topk (enumerate 0 logits) k S ->
+  let probs := softmax E (temperature S (p_temp pr)) in
+  numl probs /\ Sorted.StronglySorted desc probs.
+Proof. intros E (H1 & H2 & H3 & _) Hm. exact (probs_sorted_legal E H1 H2 H3 Hm). Qed.
+Print Assumptions C18_probabilities_descending.
+
+(** ... on such a list minP keeps *exactly* the tokens whose probability is not below the threshold ... *)
+Theorem C18_minp_set_exact : forall l thr, numl l -> num thr -> Sorted.StronglySorted descR l ->
+  forall j, (j < length l)%nat -> ((j < minP_cut thr l)%nat <-> flt (nthv l j) thr = false).
+Proof. exact minP_cut_exact. Qed.
+Print Assumptions C18_minp_set_exact.
+
+(** ... and topP keeps the *shortest* prefix whose cumulative probability exceeds p (everything if none does;
+    [C18_in_filter_set] says no shorter prefix exceeds p) *)
+Theorem C18_topp_prefix_minimal : forall l p s, l <> [] ->
+  fgt (psum s l (topP_cut p s l - 1)) p = true \/
+  (topP_cut p s l = length l /\ forall j, (j < length l)%nat -> fgt (psum s l j) p = false).
+Proof. exact topP_cut_hit. Qed.
+Print Assumptions C18_topp_prefix_minimal.
+
 (** * Non-vacuity: the hypotheses are satisfiable, and the model computes *)
 (** an oracle meeting [exp_oracle_ok] (a step function; the real exp is tested against the hypotheses by the check) *)
-Definition E0 (x : sf) : sf := if is_nan x then fnan else if is_zero x then fone else fzero.
+Definition E0 (x : sf) : sf := if is_nan x then fnan else if is_ninf x then fzero else fone.
 Example exp_oracle_ok_E0 : exp_oracle_ok E0.
 Proof.
   repeat split.
-  - unfold E0. destruct H as [_ ->]. destruct (is_zero x); [apply num_fone|apply num_fzero].
-  - unfold E0. destruct H as [_ ->]. destruct (is_zero x); easy.
-  - unfold E0. destruct H as [_ ->]. destruct (is_zero x); [rewrite rk_fone|rewrite rk_fzero]; apply Rle_refl || apply Rle_0_1.
-  - unfold E0. destruct H as [_ ->]. destruct (is_zero x); [rewrite rk_fone|rewrite rk_fzero]; apply Rle_refl || apply Rle_0_1.
-  - intros x H. unfold E0. rewrite H. now destruct x.
+  - unfold E0. destruct H as [_ ->]. destruct (is_ninf x); [apply num_fzero|apply num_fone].
+  - unfold E0. destruct H as [_ ->]. destruct (is_ninf x); easy.
+  - unfold E0. destruct H as [_ ->]. destruct (is_ninf x); [rewrite rk_fzero|rewrite rk_fone]; apply Rle_refl || apply Rle_0_1.
+  - unfold E0. destruct H as [_ ->]. destruct (is_ninf x); [rewrite rk_fzero|rewrite rk_fone]; apply Rle_refl || apply Rle_0_1.
+  - intros x H. unfold E0. now destruct x.
+Qed.
+Example exp_oracle_mono_E0 : exp_oracle_mono E0.
+Proof.
+  intros x y Hx Hy Le _. unfold E0. destruct Hx as [Vx Nx], Hy as [Vy Ny]. rewrite Nx, Ny.
+  destruct (is_ninf y) eqn:Iy.
+  - assert (y = ninf) by (destruct y as [s|[|]| |s m e]; easy). subst y. rewrite rk_ninf in Le.
+    assert (Q := rk_range x (conj Vx Nx)).
+    assert (X : rk x = (- BIG)%R) by (apply Rle_antisym; [exact Le|apply Q]).
+    apply (rk_ninf_iff x (conj Vx Nx)) in X. subst x. apply Rle_refl.
+  - destruct (is_ninf x); [rewrite rk_fzero, rk_fone; apply Rle_0_1|apply Rle_refl].
 Qed.
 
 (** temperature 0.8, top-p 0.9, min-p 0.05, draw 0.5, logits [1.0; 2.0; -Inf; 0.5] (bit patterns as the harness ships them) *)
@@ -146,7 +197,7 @@ Proof.
 Qed.
 Example ex_logits_ok : Forall num ex_logits /\ (exists x, In x ex_logits /\ x <> ninf).
 Proof. split; [repeat constructor|]. exists (f32_of_bits 1065353216). split; [now left|easy]. Qed.
-Example ex_runs : exists a, Sample E0 (new_sampler ex_temp 3 ex_topp ex_minp) ex_logits ex_r = Tok a /\ tid a = 1.
+Example ex_runs : exists a, Sample E0 (new_sampler ex_temp 3 ex_topp ex_minp) ex_logits ex_r = Tok a /\ tid a = 0.
 Proof. vm_compute. eexists. split; reflexivity. Qed.
 Example ex_not_greedy : feq (p_temp (new_sampler ex_temp 3 ex_topp ex_minp)) fzero = false.
 Proof. reflexivity. Qed.
